@@ -132,6 +132,7 @@ pub fn report<const V: u32>(name: &str, epoch: u64) {
             return o.finish();
         }
         o = o.int("sz", n.size as i64).int("h", n.hash).int("k", n.kind as i64);
+        o = o.str("sp", mmtk::verif::space_name_of_address(unsafe { Address::from_usize(n.r) }));
         let first = if n.kind == KIND_REF { 1 } else { 0 };
         o = o.ints("f", n.fields.iter().skip(first).map(|f| idx(*f)));
         if n.kind == KIND_REF {
@@ -197,6 +198,29 @@ pub fn report<const V: u32>(name: &str, epoch: u64) {
             })),
         )
         .int("usedPages", (memory_manager::used_bytes(m) >> 12) as i64)
+        // C36 in situ: the treadmill sets of every large object space, by object identity
+        .json(
+            "los",
+            &json_array(mmtk::verif::los_treadmill_sets(m).iter().map(|(name, sets)| {
+                let ids = |v: &Vec<usize>| {
+                    json_ints(v.iter().map(|r| {
+                        let n = read_node(*r);
+                        if n.bad {
+                            -1
+                        } else {
+                            (n.id & 0x7fff_ffff) as i64
+                        }
+                    }))
+                };
+                Obj::raw("")
+                    .str("n", name)
+                    .json("from", &ids(&sets[0]))
+                    .json("to", &ids(&sets[1]))
+                    .json("cn", &ids(&sets[2]))
+                    .json("an", &ids(&sets[3]))
+                    .finish()
+            })),
+        )
         .int("copied", COPY_COUNT.load(Ordering::Relaxed) as i64);
     // enumerate_objects is documented as unsupported while a (concurrent) collection is in progress:
     // the pause that starts concurrent marking reports no enumeration.
